@@ -105,6 +105,7 @@ def plan(ctx):
   tasks += [('corrupt', i) for i in range(nb)]
   files = sorted(glob.glob(os.path.join(ctx.repo, 'integration_tests', '*.l')))
   for ch in explore.shards(files, 8): tasks.append(('files', ch))
+  tasks.append(('imports',))
   return tasks
 
 
@@ -149,6 +150,24 @@ def work(task):
       stats['corrupted'] += 1
       outcomes.add(compare(s, stats, viol, kind='corrupt'))
     if task[1] == 3: samples.append(dict(kind='single-token corruptions of', text=base, variants=stats['corrupted']))
+  elif task[0] == 'imports':
+    # the same module names with different contents under different import roots, parsed one after the other in ONE process
+    import tempfile, shutil
+    base = tempfile.mkdtemp(prefix='verif_c06_')
+    try:
+      mains = ['import lib.Pub;\nT(x) :- Pub(x);\n', 'import lib.Pub as P;\nimport d.other.Q;\nT(x) :- P(x) | Q(x);\n', 'import d.other.Q;\nimport lib.Pub;\nT(x) :- Q(x), Pub(x);\n']
+      for k in range(4):
+        root = os.path.join(base, 'root%d' % k); os.makedirs(os.path.join(root, 'd'))
+        open(os.path.join(root, 'lib.l'), 'w').write('Priv(%d);\n%sPub(x) :- Priv(x)%s;\n' % (k, 'Helper(x) :- Priv(x);\n' if k % 2 else '', ', Helper(x)' if k % 2 else ''))
+        open(os.path.join(root, 'd', 'other.l'), 'w').write(('import lib.Pub as Base;\nQ(x + %d) :- Base(x);\n' % k) if k < 2 else ('Q(%d);\nQ(%d);\n' % (k, k + 1)))
+      for rep in range(2):
+        for k in range(4):
+          for mtext in mains:
+            stats['files'] += 1
+            outcomes.add(compare(mtext, stats, viol, import_root=os.path.join(base, 'root%d' % k), kind='imports'))
+            outcomes.add(compare(mtext, stats, viol, import_root=[os.path.join(base, 'root%d' % k), os.path.join(base, 'root%d' % ((k + 1) % 4))], kind='imports'))
+    finally:
+      shutil.rmtree(base, ignore_errors=True)
   else:
     for f in task[1]:
       stats['files'] += 1
